@@ -43,7 +43,20 @@ type opCase struct {
 	keepUniverse bool
 	idx int
 	rawOp, rawVars string // corpus: operation given as text
+	parsed     *fl.Operation
+	parsedVars *fl.J
+	dropped    map[string]bool    // positions of the fields of defers that a dead ancestor anchor below their mount cancels
+	badAnchors []c10lab.BadAnchor // descriptor paths that are not a prefix of every selection set of their defer
 }
+
+func (oc *opCase) ensureParsed(text, vars string) {
+	if oc.parsed == nil {
+		oc.parsed, _ = c10lab.ParseOperation(text)
+		oc.parsedVars, _ = fl.ParseJSON([]byte(vars))
+	}
+}
+
+var memberRe = regexp.MustCompile(`^/[^:]*: (?:extra |duplicate )?member (\S+)`)
 
 type worker struct {
 	exec *fl.ExecServer
@@ -118,7 +131,9 @@ func runOne(lab *c10lab.Lab, oc *opCase, text, vars string, chooser c10lab.Choos
 	if len(s.Frames) == 0 {
 		// no frame: a planning / validation error.  Compare with the non-deferred query.
 		if refs.gwErr == "" {
-			fails = append(fails, c10lab.Fail{Clause: "exec_error", Detail: "the query fails only with @defer: " + s.ExecErr})
+			oc.ensureParsed(text, vars)
+			fails = append(fails, c10lab.Fail{Clause: "exec_error", Detail: "the query fails only with @defer: " + s.ExecErr +
+				" [diag=" + c10lab.DiagnosePlanError(lab.Config, oc.parsed, oc.parsedVars) + "]"})
 		}
 		return run, s, fails
 	}
@@ -147,13 +162,58 @@ func runOne(lab *c10lab.Lab, oc *opCase, text, vars string, chooser c10lab.Choos
 		if s.Frames[0].ParseErr == "" && (s.Frames[0].Data == nil || s.Frames[0].Data.Kind == fl.JNull) {
 			d0 = "null"
 		}
+		var lost []string
 		for i := range fails {
 			if !strings.HasPrefix(fails[i].Clause, "reconstruct") {
 				continue
 			}
 			diag := ""
 			if strings.HasPrefix(fails[i].Detail, "/") {
-				diag = c10lab.DiagnosePosition(lab.Config.Super, strings.SplitN(fails[i].Detail, ":", 2)[0])
+				pos := strings.SplitN(fails[i].Detail, ":", 2)[0]
+				member := ""
+				if m := memberRe.FindStringSubmatch(fails[i].Detail); m != nil {
+					member = m[1]
+				}
+				oc.ensureParsed(text, vars)
+				if strings.Contains(fails[i].Detail, ": null without @defer, ") {
+					diag = c10lab.DiagnoseOpSubtree(lab.Config.Super, oc.parsed, oc.parsedVars, pos)
+				} else {
+					diag = c10lab.DiagnoseOp(lab.Config.Super, oc.parsed, oc.parsedVars, pos, member)
+				}
+				if diag == "" && member != "" && strings.Contains(fails[i].Detail, "missing in the reconstruction") {
+					var names []string
+					for _, x := range strings.Split(strings.Trim(pos, "/"), "/") {
+						if _, err := strconv.Atoi(x); err != nil && x != "" {
+							names = append(names, x)
+						}
+					}
+					if oc.dropped[strings.Join(names, "/")] {
+						diag = "anchor-first-occurrence"
+					}
+				}
+			} else if strings.Contains(fails[i].Detail, "addresses nothing in the data delivered so far: /") {
+				// pending path ++ subPath does not exist: is the pending path one of the anchors that the plan-level
+				// check found inconsistent (a defer whose fields surface in several selection sets)?
+				where := fails[i].Detail
+				where = where[strings.Index(where, ": /")+3:]
+				var segs []string
+				for _, x := range strings.Split(where, "/") {
+					segs = append(segs, strings.Trim(x, "\""))
+				}
+				for _, a := range oc.badAnchors {
+					if len(segs) > len(a.Path) && strings.Join(segs[:len(a.Path)], "/") == strings.Join(a.Path, "/") {
+						diag = "anchor-first-occurrence"
+						// the item was meant for mount ++ subPath: what it carried is missing from now on
+						lost = append(lost, strings.Join(append(append([]string{}, a.Mount...), segs[len(a.Path):]...), "/")+"/")
+					}
+				}
+				if diag == "" {
+					for _, l := range lost {
+						if strings.HasPrefix(strings.Join(segs, "/")+"/", l) {
+							diag = "anchor-first-occurrence"
+						}
+					}
+				}
 			}
 			fails[i].Detail += fmt.Sprintf(" [d0=%s silent=%d failed=%d monoerr=%d diag=%s]", d0, silent, failedN, refs.monoErrors, diag)
 		}
@@ -224,6 +284,17 @@ func processOp(w *worker, oc *opCase, plan orderPlan, rseed uint64) {
 		iffText, iffName = iff.Text(), iff.Name
 	}
 
+	// plan level: the ancestor chains of the normalised document and the real DeferDescriptors
+	if di, err := lab.Descriptors(text, oc.op.Name, []byte(vars)); err == nil {
+		oc.lines = append(oc.lines, di.Sexp(oc.cfg, text, vars, lab.Config.Super))
+		oc.badAnchors = di.InconsistentAnchors()
+		oc.dropped = di.DroppedPositions()
+		oc.stats["desc_lines"]++
+		oc.stats["desc_defers"] += len(di.Chains)
+	} else {
+		oc.stats["desc_unavailable"]++
+	}
+
 	rf := &refs{}
 	if m, err := lab.Mono(ndText, ndName, []byte(vars)); err != nil {
 		rf.monoInvalid = err.Error()
@@ -275,7 +346,11 @@ func processOp(w *worker, oc *opCase, plan orderPlan, rseed uint64) {
 		n := announcedIDs(s)
 		nt := n >= 2 || hasNestedAnnouncement(s)
 		term := !s.TimedOut
-		line := common.L("c10spec", common.L("cfg", q(oc.cfg)), common.L("useed", strconv.FormatUint(oc.useed, 10), strconv.Itoa(oc.harsh)),
+		useed := common.L("useed", strconv.FormatUint(oc.useed, 10), strconv.Itoa(oc.harsh))
+		if oc.keepUniverse && lab.Universe != nil {
+			useed = lab.Universe.Sexp() // corpus / shrink: the universe itself
+		}
+		line := common.L("c10spec", common.L("cfg", q(oc.cfg)), useed,
 			common.L("op", q(text)), common.L("vars", q(vars)), common.L(picks...), frameSummary(s),
 			common.L("term", common.B(term)), common.L("compl", strconv.Itoa(s.Completes)), common.L("ndefer", strconv.Itoa(n)), common.L(gof...), common.L("nt", common.B(nt)))
 		oc.lines = append(oc.lines, line)
@@ -461,6 +536,9 @@ func specMode(a map[string]string) {
 		fmt.Fprintf(&sb, "%s=%d ", k, tot[k])
 	}
 	fmt.Fprintln(os.Stderr, "DIST", sb.String())
+	if p, ok := a["dist"]; ok {
+		os.WriteFile(p, []byte(strings.ReplaceAll(strings.TrimSpace(sb.String()), " gen.", "\ngen.")), 0o644)
+	}
 }
 
 func probeMode(a map[string]string) {
